@@ -9,7 +9,7 @@ env.setup()
 
 ALL = [f"C{i:02d}" for i in range(1, 21)]
 # modules that are finished, reviewed and silent on the unchanged tree
-READY = ["C03", "C04", "C05", "C07", "C08", "C09", "C10", "C11", "C12", "C13", "C14", "C15", "C16", "C17", "C18", "C19", "C20"]
+READY = ALL
 NOT_BUILT_REASON = "check not built yet in this round (planned: see DESIGN.md section 5)"
 
 ENGINES = [
